@@ -43,6 +43,10 @@ def evaluate(i, scn):
         ck.d(False, "C09", "C09_FitAnswers", f"{c['fam']} fit raised {type(e).__name__}: {str(e)[:200]}")
         return dict(found=ck.found, D=ck.D)
     CW.check_cross(ck, scn, cw, m, tag=("Complex" if c["dtype"] == "complex" else "") + c["fam"])
+    if not c["wide"] and i % 2 == 0:
+        # the same configuration on full-column-rank fields (adds the pattern-correlation clauses)
+        cwf = CW.CrossWorld(c, seed=common.seed(), fullrank=True)
+        CW.check_cross(ck, scn, cwf, CW.fit(c, cwf), tag=("Complex" if c["dtype"] == "complex" else "") + c["fam"] + " (full rank)")
     return dict(found=ck.found, P=ck.P, D=ck.D, M=ck.M, count={c["fam"]: 1})
 
 
